@@ -392,7 +392,7 @@ func c17Run(raw json.RawMessage) harn.Result {
 func init() {
 	harn.Register(&harn.Check{
 		ID:   "C17",
-		Rule: "transparent: every program of a pool (~1400: construct-covering programs, program+broken-tail inputs, dice expressions, near-miss operands such as 'E', 'Efoo', 'C1T') x 7 extension sets (never-matching regex; never-matching stream parser reading 0..3 runes ahead, resetting or not; a regex whose syntax occurs nowhere; identity load/store hooks; identity detail rewriters; all together): error-ness, value, detail text, rest text and variables must equal the run without extensions, and no handler may run. acting: 37 templates placing a matching operand (regex 'E<n>' and stream-parsed 'C<a>T<b>') at every operand position (start, after operators, in parentheses, arrays, call arguments, assignments, template holes, function and loop bodies, untaken branches, across line breaks) x 3 operands: the handler must run exactly once per evaluation of the operand with the matched text as groups[0], the captures and the payload, its returned value must be used by copy, and value / variables / rest must equal those of the program with the operand written as a number of the same length. stream-expr: a stream parser for R<expression> built on the rest of the stream API (Unread, ReadExpr, Commit, Remaining, Current, Consumed) over the operand templates, 57 adversarial operands x 9 contexts and every token string of <= 2 tokens (thorough 3) containing R: never a panic, and an accepted program has the value of the program with each consumed R<T> written as (<T>). acting-hooks: 52 programs x 5 acting hooks (load-pre overwrite, load-pre rename, store solved, store overwrite, load-post replace): a hook that never fired changes nothing; a swallowed store never reaches the variables; an overwritten store stores the overwrite; a load hook never changes variables the program does not assign; and for read-only programs the value equals that of the program with x written as the name / value the hook supplies. odd-extensions: 42 programs x 8 extensions that use the corners of the API (regex matching the empty string, parser returning nil / Matched without consuming / an error, handler returning an error / nil, unmatched optional group, no Groups + Display + detail text): never a panic, never-matching ones are transparent, failures surface as errors, groups[0] is the matched text. Distinct by (program, extension set) / (template, operand) / (program, hook).",
+		Rule: "transparent: every program of a pool (~1400: construct-covering programs, program+broken-tail inputs, dice expressions, near-miss operands such as 'E', 'Efoo', 'C1T') x 7 extension sets (never-matching regex; never-matching stream parser reading 0..3 runes ahead, resetting or not; a regex whose syntax occurs nowhere; identity load/store hooks; identity detail rewriters; all together): error-ness, value, detail text, rest text and variables must equal the run without extensions, and no handler may run. acting: 37 templates placing a matching operand (regex 'E<n>' and stream-parsed 'C<a>T<b>') at every operand position (start, after operators, in parentheses, arrays, call arguments, assignments, template holes, function and loop bodies, untaken branches, across line breaks) x 3 operands: the handler must run exactly once per evaluation of the operand with the matched text as groups[0], the captures and the payload, although it overwrites the groups slice it is given after recording it, its returned value must be used by copy, and value / variables / rest must equal those of the program with the operand written as a number of the same length. stream-expr: a stream parser for R<expression> built on the rest of the stream API (Unread, ReadExpr, Commit, Remaining, Current, Consumed) over the operand templates, 57 adversarial operands x 9 contexts and every token string of <= 2 tokens (thorough 3) containing R: never a panic, and an accepted program has the value of the program with each consumed R<T> written as (<T>). acting-hooks: 52 programs x 5 acting hooks (load-pre overwrite, load-pre rename, store solved, store overwrite, load-post replace): a hook that never fired changes nothing; a swallowed store never reaches the variables; an overwritten store stores the overwrite; a load hook never changes variables the program does not assign; and for read-only programs the value equals that of the program with x written as the name / value the hook supplies. odd-extensions: 42 programs x 8 extensions that use the corners of the API (regex matching the empty string, parser returning nil / Matched without consuming / an error, handler returning an error / nil, unmatched optional group, no Groups + Display + detail text): never a panic, never-matching ones are transparent, failures surface as errors, groups[0] is the matched text. Distinct by (program, extension set) / (template, operand) / (program, hook).",
 		Enumerate: c17Enumerate,
 		Run:       c17Run,
 		Budget:    map[string]time.Duration{"quick": 400 * time.Second, "thorough": 40 * time.Minute},
